@@ -133,6 +133,7 @@ class SimDfuSe:
         self.sched_default = sched.get('default', [[], 0])
         self.idle_timeout = sched.get('idle', 0)       # bwPollTimeout on non-busy replies
         self.container = scen.get('knobs', {}).get('container', 'array')
+        self.istring = scen.get('knobs', {}).get('istring', 0)
         self.lenient = bool(scen.get('lenient'))
         self.errors = {(e['op'], e['n']): e['status'] for e in scen.get('errors', [])}
         self.faults = {f['at']: f for f in scen.get('faults', [])}
@@ -282,7 +283,7 @@ class SimDfuSe:
                 self.res.hit('timeout:byte0')
             if not busy:
                 self.res.hit('timeout:on-nonbusy-reply')
-        return self.reply([status, t_ms & 0xFF, (t_ms >> 8) & 0xFF, (t_ms >> 16) & 0xFF, state, 0])
+        return self.reply([status, t_ms & 0xFF, (t_ms >> 8) & 0xFF, (t_ms >> 16) & 0xFF, state, self.istring])
 
     def do_dnload(self, wValue, data):
         self.dnload_requests += 1
